@@ -203,8 +203,19 @@ def minimise_and_write(engine, viol, known_entries, budget_n, history=None):
     ok = False
     for line in p.stdout.splitlines():
         if line.startswith("REPLAY "):
-            ok = ("verdict=VIOLATION " in line and ("class=%s " % res.vclass) in line + " "
-                  and ("digest=%s" % res.digest) in line)
+            ok = "verdict=VIOLATION " in line and ("class=%s " % res.vclass) in line + " "
+            if ok and ("digest=%s" % res.digest) not in line:
+                # the violation reproduces in a fresh interpreter, its event trace does not: the code under test does
+                # not behave deterministically (typically it reads memory it never initialised). Still a violation of
+                # the property, and the replay file still shows it; the file says that its digest is not stable.
+                with open(path) as f:
+                    rp = json.load(f)
+                rp["digest_stable"] = False
+                rp["expected_digest"] = None
+                with open(path, "w") as f:
+                    json.dump(rp, f, indent=1, sort_keys=True, default=str)
+                print("NOTE replay of %s reproduces the violation class but not the trace digest: the code under test is "
+                      "not deterministic here (uninitialised memory?)" % path)
     return path, ok, res
 
 
